@@ -329,9 +329,17 @@ func (r *router) Routes(routePath, methods string, handlers ...Handler) *Route {
 		ms = append(ms, m)
 	}
 
+	// The returned Route holds leaves of all methods.
 	var route *Route
 	for _, m := range ms {
-		route = r.Route(m, routePath, handlers)
+		added := r.Route(m, routePath, handlers)
+		if route == nil {
+			route = added
+			continue
+		}
+		for method, leaf := range added.leaves {
+			route.leaves[method] = leaf
+		}
 	}
 	return route
 }
